@@ -140,33 +140,36 @@ theorem ruleS_skip (g : α → Bool) (N : Nat) (v : α) (R : List (Nat × α)) :
     unfold bestV
     split <;> rfl
 
-theorem ruleS_map (f : α → β) (g : α → Bool) (g' : β → Bool) (hg : ∀ x, g x = g' (f x)) (N : Nat) :
+theorem ruleS_map (f : α → β) (g : α → Bool) (g' : β → Bool) (N : Nat) :
     ∀ (l : List (Nat × α)) (p : Nat) (best : Option α) (last : α),
+    g last = g' (f last) → (∀ e ∈ l, g e.2 = g' (f e.2)) →
     (ruleS g N p best last l).map f =
       ruleS g' N p (best.map f) (f last) (l.map (fun e => (e.1, f e.2))) := by
   intro l
   induction l with
   | nil =>
-    intro p best last
+    intro p best last _ _
     simp only [ruleS, List.map_nil]
     split
     · cases best <;> simp
     · rfl
   | cons e t ih =>
-    intro p best last
+    intro p best last hlast hl
     obtain ⟨d, v⟩ := e
+    have hv : g v = g' (f v) := hl (d, v) (List.mem_cons_self ..)
+    have ht : ∀ e ∈ t, g e.2 = g' (f e.2) := fun e he => hl e (List.mem_cons_of_mem _ he)
     simp only [ruleS, List.map_cons]
     split
-    · rw [ih]
+    · rw [ih _ _ _ hv ht]
       congr 1
-      rw [← hg]
+      rw [← hv]
       split <;> simp
     · simp only [List.map_cons, List.map_append, List.map_replicate]
-      rw [ih]
+      rw [ih _ _ _ hv ht]
       congr 1
       · cases best <;> simp
       · congr 2
-        rw [← hg, ← hg]
+        rw [← hv, ← hlast]
         split
         · simp
         · split <;> simp
